@@ -1118,6 +1118,20 @@ impl NameResolution {
     ) -> hir::PatId {
         match pat {
             ast::Pat::PVar { name, astptr } => {
+                // A bare identifier that names a constructor of this package is a constructor
+                // pattern, also when the enum is declared in another file of the package (the
+                // lowering only knows the constructors of its own file).
+                let as_path = ast::Path::from_ident(name.clone());
+                if let Some(constructor) = self.constructor_path_for(&as_path, ctx) {
+                    return self.alloc_pat_with_ptr(
+                        hir_table,
+                        *astptr,
+                        hir::Pat::PConstr {
+                            constructor: hir::ConstructorRef::Unresolved(constructor),
+                            args: Vec::new(),
+                        },
+                    );
+                }
                 let newname = self.fresh_name(&name.0, hir_table);
                 env.add(name, newname);
                 self.alloc_pat_with_ptr(
